@@ -46,7 +46,7 @@ int main()
         cases++;
         volatile int valid = -1;
         volatile unsigned long long size = 0;
-        auto out = vh::guarded([&] { auto r = run_sbc(mi, p, img.size(), sel, goff); valid = r.valid; size = r.size; }, 250);
+        auto out = vh::guarded([&] { auto r = run_sbc(mi, p, img.size(), sel, goff); valid = r.valid; size = r.size; }, 100);
         if(out.kind != vh::OK)
         {
             std::cout << "FAIL " << id << " OUTCOME " << (out.kind == vh::HANDLER ? "HANDLER " : out.kind == vh::FAULT ? "FAULT " : "TIMEOUT ");
